@@ -2,7 +2,9 @@
 import asyncio
 from datetime import timedelta
 
-from harness.legs import cfg_text, leg_m, leg_mutant, leg_r
+import random
+
+from harness.legs import cfg_text, leg_m, leg_mutant, leg_r, leg_t_gen
 from harness.vloop import VClock, VLoop
 
 SPEC = "Throttle"
@@ -97,6 +99,51 @@ class ThrottleDriver:
                 self.clock.__exit__(None, None, None)
 
 
+def gen_trace(rnd, ncalls=12):
+    """random arrival pattern of up to 12 calls (bursts, gaps around the period boundary), random function ends and
+    cancellations of waiting callers, recorded from the real throttle"""
+    limit, period, pform = rnd.choice([1, 2, 3, 4]), rnd.choice([2, 3, 5]), rnd.choice(["float", "timedelta"])
+    d = ThrottleDriver()
+    pc = ["idle"] * ncalls
+    init = dict(limit=limit, period=period, pform=pform, pc=pc)
+    d.reset(init)
+    tr = [dict(ev="Init", init=dict(limit=limit, period=period, pform=pform))]
+    arrived = 0
+    try:
+        for _ in range(rnd.randint(20, 45)):
+            started = {s["c"] for s in d.starts}
+            running = [c for c in started if d.res[c - 1] == "none" and c in d.gates and not d.gates[c].done()]
+            waiting = [c for c in range(1, arrived + 1) if c not in started and d.res[c - 1] == "none"]
+            ch = [("Tick", [])] * 3
+            if arrived < ncalls:
+                ch += [("Arrive", [arrived + 1])] * (6 if rnd.random() < 0.5 else 2)
+            for c in running:
+                ch.append(("FnEnd", [c, rnd.choice(["val", "exc"])]))
+            if waiting and rnd.random() < 0.3:
+                ch.append(("Cancel", [rnd.choice(waiting)]))
+            name, args = rnd.choice(ch)
+            if name == "Arrive":
+                arrived += 1
+            o = d.apply(name, tuple(args))
+            tr.append(dict(ev=name, args=args, obs=dict(starts=[dict(x) for x in o["starts"]], res=list(o["res"]))))
+        # let everything finish: tick until nobody waits, end every running function
+        for _ in range(200):
+            started = {s["c"] for s in d.starts}
+            running = [c for c in started if d.res[c - 1] == "none" and c in d.gates and not d.gates[c].done()]
+            waiting = [c for c in range(1, arrived + 1) if c not in started and d.res[c - 1] == "none"]
+            if running:
+                name, args = "FnEnd", [running[0], "val"]
+            elif waiting:
+                name, args = "Tick", []
+            else:
+                break
+            o = d.apply(name, tuple(args))
+            tr.append(dict(ev=name, args=args, obs=dict(starts=[dict(x) for x in o["starts"]], res=list(o["res"]))))
+    finally:
+        d.close()
+    return tr
+
+
 def consts(tier, **kw):
     c = dict(NCalls=3, Limits=[1, 2], Periods=[2, 3], MaxT=4, Bug="none") if tier == "quick" else \
         dict(NCalls=4, Limits=[1, 2, 3], Periods=[2, 3], MaxT=4, Bug="none")
@@ -119,6 +166,16 @@ def run(rep, work, tier, seed):
                          ("prune_lt", ["NoNeedlessDelay", "RateBound"])):
             leg_mutant(rep, work, SPEC, f"mutant_{bug}", cfg_text(consts("quick", Bug=bug), invariants=INVS), inv)
     leg_r(rep, work, SPEC, f"conf_{tier}", cfg_text(c, invariants=INVS), ThrottleDriver, internal=INTERNAL)
+    # leg T: arrival patterns of up to 12 calls recorded from the real throttle, validated by a trace module generated
+    # from Throttle.tla (internal Decide / Wake / Settle steps run silently between the logged events)
+    rnd = random.Random(seed * 17 + 3)
+    traces = [gen_trace(rnd) for _ in range(120 if tier == "quick" else 1500)]
+    leg_t_gen(rep, work, SPEC, f"trace_{tier}", traces,
+              variables=["limit", "period", "pform", "now", "entries", "lockq", "pc", "wake", "arrived", "starts", "res", "obs"],
+              constants=dict(NCalls=12, Limits="1..4", Periods="{2, 3, 5}", MaxT=100000, Bug='"none"'),
+              config_vars=["limit", "period", "pform"], actions=dict(Arrive=1, Tick=0, FnEnd=2, Cancel=1),
+              internal="(M!Internal \\/ M!Settle)", quiet="M!Rest",
+              invariants=["RateBound", "ArrivalOrder", "NoNeedlessDelay", "Transparent"])
     rep.assumptions += [
         "exact integer virtual time (time.monotonic and the loop clock read the same virtual clock); float rounding "
         "of real clocks is outside the model",
